@@ -14,13 +14,14 @@ fn gen_case(seed: u64, i: u64) -> Case {
     let mut it = Interner::new();
     let fcoq = coq_function(f, &mut it);
     let big = r.chance(1, 2);
-    let arena = gen_arena(&mut r);
-    let nenv = 3;
-    let envs = coq_list((0..nenv).map(|_| gen_env(&mut r, &fc.pool, &mut it)).collect::<Vec<_>>());
+    let aseed = r.below(1 << 20);
+    let pool = coq_pool(&fc.pool, &mut it);
+    let vals = coq_list((0..3).map(|_| gen_vals(&mut r, &fc.pool)).collect::<Vec<_>>());
     let rd = observe(|| reaching_definitions(f));
     let ud = observe(|| use_def(f));
     let du = observe(|| def_use(f));
-    let coq = format!("(K {} {} {} {} {} {} {})", fcoq, coq_bool(big), arena, envs, rd.coq(coq_locmap), ud.coq(coq_locmap), du.coq(coq_locmap));
+    let lm = |m: &std::collections::HashMap<falcon::il::ProgramLocation, falcon::analysis::LocationSet>| coq_locmap(f, m);
+    let coq = format!("(K {} {} {} {} {} {} {} {})", fcoq, coq_bool(big), aseed, pool, vals, rd.coq(lm), ud.coq(lm), du.coq(lm));
     let mut tags: Vec<String> = fc.tags.iter().cloned().collect();
     tags.push(format!("rd:{}", rd.kind()));
     tags.push(format!("ud:{}", ud.kind()));
